@@ -57,6 +57,10 @@ def tie_diffs():
             if a.get(k) != b.get(k): diffs.append("layout:" + k)
     if open(os.path.join(EXPECTED, "cfg_items.txt")).read() != open(os.path.join(GEN, "cfg_items.txt")).read():
         diffs.append("cfg:items")
+    exp_p = open(os.path.join(EXPECTED, "panic_sites.txt")).read().split("\n")
+    cur_p = open(os.path.join(GEN, "panic_sites.txt")).read().split("\n")
+    for l in sorted(set(cur_p) - set(exp_p)): diffs.append("panic:new site " + l[:120])
+    for l in sorted(set(exp_p) - set(cur_p)): diffs.append("panic:removed site " + l[:120])
     exp_s = json.load(open(os.path.join(EXPECTED, "shapes.json")))
     cur_s = json.load(open(os.path.join(GEN, "shapes.json")))
     for k in sorted(set(exp_s) | set(cur_s)):
